@@ -283,3 +283,62 @@ func lessThanGuards(name string, isA, isB func(ssa.Value) bool) []*an.Guard {
 		}},
 	}
 }
+
+var mirrorOp = map[token.Token]token.Token{token.LSS: token.GTR, token.GTR: token.LSS, token.LEQ: token.GEQ, token.GEQ: token.LEQ, token.EQL: token.EQL, token.NEQ: token.NEQ}
+var negOp = map[token.Token]token.Token{token.LSS: token.GEQ, token.GEQ: token.LSS, token.GTR: token.LEQ, token.LEQ: token.GTR, token.EQL: token.NEQ, token.NEQ: token.EQL}
+
+// relMatch: does the comparison v state the relation "A op B" between an operand selected by isA and one selected
+// by isB, in any of its spellings (A op B, B mirror(op) A, and the negated forms)? whenTrue tells for which outcome of
+// v the relation holds.
+func relMatch(v ssa.Value, op token.Token, isA, isB func(ssa.Value) bool) (matches, whenTrue bool) {
+	b, ok := v.(*ssa.BinOp)
+	if !ok {
+		return false, false
+	}
+	switch {
+	case b.Op == op && isA(b.X) && isB(b.Y), b.Op == mirrorOp[op] && isB(b.X) && isA(b.Y):
+		return true, true
+	case b.Op == negOp[op] && isA(b.X) && isB(b.Y), b.Op == mirrorOp[negOp[op]] && isB(b.X) && isA(b.Y):
+		return true, false
+	}
+	return false, false
+}
+
+// relGuards: guards that fail exactly when "A op B" holds, whatever the spelling of the comparison.
+func relGuards(name string, op token.Token, isA, isB func(ssa.Value) bool) []*an.Guard {
+	return []*an.Guard{
+		{Name: name, FailValue: an.ATrue, MatchValue: func(v ssa.Value) bool { m, t := relMatch(v, op, isA, isB); return m && t }},
+		{Name: name, FailValue: an.AFalse, MatchValue: func(v ssa.Value) bool { m, t := relMatch(v, op, isA, isB); return m && !t }},
+	}
+}
+
+func isConstVal(s string) func(ssa.Value) bool {
+	return func(v ssa.Value) bool {
+		k, isK := v.(*ssa.Const)
+		return isK && k.Value != nil && k.Value.String() == s
+	}
+}
+
+func anyValue(ssa.Value) bool { return true }
+
+// finalStore: the store st to the given field can be the last store to that field before fn returns (under the
+// assumptions): some return of fn is reachable from st without passing another store to the field.
+func finalStore(fn *ssa.Function, st *ssa.Store, field *types.Var, assume map[ssa.Value]an.Abs) bool {
+	cut := map[ssa.Instruction]bool{}
+	for _, g := range an.InlineReach(fn) {
+		for _, b := range g.Blocks {
+			for _, in := range b.Instrs {
+				if o, isSt := in.(*ssa.Store); isSt && o != st && an.FieldOf(o.Addr) == field {
+					cut[o] = true
+				}
+			}
+		}
+	}
+	r := (&an.Query{Fn: fn, Start: st, Cut: cut, Assume: assume}).Run()
+	for _, ret := range an.Returns(fn) {
+		if r.Reaches(ret) {
+			return true
+		}
+	}
+	return false
+}
